@@ -26,6 +26,7 @@ pub fn run_property(p: &str) {
         "C09" => c09(),
         "C06" => c06(),
         "C13" => c13(),
+        "C10" => c10(),
         other => {
             eprintln!("no loom models for {other}");
             std::process::exit(2)
@@ -243,4 +244,31 @@ fn c13() {
         }
     }
     finish(rep, jobs, "Parent drop, slot-guard drop (Slot and LazySlot, one or both per entry, wait and discard mode) and an optional force-flush-guard drop on separate threads, all schedules within the preemption bound: exactly one append; in wait mode without a force guard the value is present, as last mutated, and the append happens after the guard's drop began; in discard mode a present value is never stale and never from a guard whose drop had not begun; the parent's own field is unaffected; a slot opens at most once.");
+}
+
+fn c10() {
+    let rep = Report::from_args("C10", "model_checking");
+    let tier = rep.tier;
+    let pb = tier.pick(2, 3);
+    let mut jobs = Vec::new();
+    let mut add = |cfg: Value| jobs.push(Job { harness: "c10", cfg });
+    // producers x sends (same key = forced collision, different keys), main sends + awaited flush
+    add(json!({"producers": [[["a", 1]]], "main": [], "pb": pb}));
+    add(json!({"producers": [[["a", 1], ["a", 2]]], "main": [], "pb": pb}));
+    add(json!({"producers": [[["a", 1]], [["a", 5]]], "main": [], "pb": pb}));
+    add(json!({"producers": [[["a", 1]], [["b", 5]]], "main": [], "pb": pb}));
+    add(json!({"producers": [[["a", 1], ["b", 3]], [["a", 5]]], "main": [], "pb": pb}));
+    add(json!({"producers": [], "main": [["a", 2], ["b", 1]], "flush": true, "pb": pb}));
+    add(json!({"producers": [[["a", 1]]], "main": [["a", 2]], "flush": true, "pb": pb}));
+    add(json!({"producers": [[["a", 1]]], "main": [["b", 2]], "flush": true, "pb": pb}));
+    add(json!({"producers": [[["a", 1], ["a", 3]]], "main": [["a", 2]], "flush": true, "pb": pb}));
+    if tier == Tier::Thorough {
+        add(json!({"producers": [[["a", 1]], [["b", 5]]], "main": [["a", 2]], "flush": true, "pb": 2}));
+        add(json!({"producers": [[["a", 1], ["b", 1]], [["a", 5], ["b", 5]]], "main": [], "pb": 2}));
+    }
+    // the timed flush: the k-th clock read lands past the flush interval
+    for k in 0..tier.pick(8, 16) {
+        add(json!({"producers": [[["a", 1], ["a", 2]]], "main": [["a", 4]], "flush": k % 2 == 0, "jump_k": k, "pb": pb}));
+    }
+    finish(rep, jobs, "The real WorkerSink thread over a real KeyedAggregator with 1-2 producer threads x 1-2 sends (colliding and distinct keys), an awaited flush on the main thread, the timed flush expiring at every early clock read, and the drop of the last handle, all schedules within the preemption bound: a completed flush has emitted everything sent before it by that thread; across all emitted aggregates every input is counted exactly once per key (count and weight sums); after the last handle is dropped the worker emits what it holds, drops the aggregator and exits within 3 fake flush intervals (a spinning worker is reported as a livelock).");
 }
